@@ -527,10 +527,13 @@ def _stop_inclusive(ctx, run):
                 a = f.exprs[ex.skip(f, a["c"][0])]
             while b["k"] == "cast":
                 b = f.exprs[ex.skip(f, b["c"][0])]
-            if a["k"] != "ref" or b["k"] != "ref":
-                continue
-            names = (a.get("name"), b.get("name"))
+            # one side is the local `stop`; the other is the current position - a local, or (after a temporary was
+            # introduced or removed) the expression that computes it - but not `start`
+            names = (a.get("name") if a["k"] == "ref" else None, b.get("name") if b["k"] == "ref" else None)
             if "stop" not in names or "start" in names:
+                continue
+            other = e["c"][1] if names[0] == "stop" else e["c"][0]
+            if "start" in atoms.Operand(f, other).locals or ex.const(f, other) is not None:
                 continue
             op = e["op"]
             if names[0] == "stop":
